@@ -277,6 +277,28 @@ def float_stream(ctx, focus, n_problems):
         dl = numpy.array([[rng.gauss(0, 2) for _ in range(p.n + 1)] for _ in range(p.n)])
         p.dep = (dl - numpy.log(numpy.exp(dl).sum(axis=1, keepdims=True))).astype(numpy.float32)
         pen = rng.choice([0.0, 0.1, 0.25])
+        sub = rng.random()
+        if sub < 0.2:
+            # probability 0 is a probability: -inf entries (masked arcs / tags); every row keeps a finite best entry
+            for m_ in (p.tag, p.dep):
+                for row in m_:
+                    b_ = int(numpy.argmax(row))
+                    for j_ in range(len(row)):
+                        if j_ != b_ and rng.random() < 0.3:
+                            row[j_] = -numpy.inf
+            ctx.count('float_stream:minus_infinity')
+        elif sub < 0.35 and p.n >= 3:
+            # pure bracketing ambiguity: one category, X X -> X, constant dependency rows - all derivations have the same real score and
+            # float sums that differ in the last bits
+            p.binary = {(0, 0): [(0, True)]}
+            p.unary = {}
+            p.roots = [0]
+            p.tag = p.tag[:, :1].copy()
+            p.K = 1
+            for row in p.dep:
+                row[:] = row[0]
+            K = 1
+            ctx.count('float_stream:bracketing_ties')
         r = rt_search_float(p, pen)
         tol = 2e-5 * (p.n + 2) * 8
         chart = A.all_derivations(p, [list(range(K))] * p.n, limit=60000)
@@ -303,8 +325,12 @@ def float_stream(ctx, focus, n_problems):
         ctx.count('float_stream')
         allsc = sorted((total(d) for d in comp), reverse=True)
         head_uniform = len({hl for rs in p.binary.values() for _, hl in rs}) <= 1
+        import math as _m
+
+        def differs(a, b):          # -inf equals -inf; NaN equals nothing
+            return not (a == b or abs(a - b) <= tol)
         for i, d in enumerate(goals):
-            if focus in ('c09', 'c10', 'c01') and abs(total(d) - scores[i]) > tol:
+            if focus in ('c09', 'c10', 'c01') and differs(total(d), scores[i]):
                 ctx.fail('score_mismatch_float', f'real-valued scores: reported {scores[i]} but the returned derivation scores {total(d)} (tolerance {tol:.2g})', data)
         if focus == 'c01' and nbest == 1 and head_uniform:
             if r['status'] == 0 and allsc and scores[0] < allsc[0] - tol:
@@ -320,9 +346,9 @@ def float_stream(ctx, focus, n_problems):
                 ctx.fail('nbest_count_float', f'real-valued scores: asked for {nbest}, {len(comp)} derivations exist, {len(goals)} returned', data)
             if len(set(goals)) != len(goals):
                 ctx.fail('nbest_duplicate_float', 'real-valued scores: the same derivation was returned twice', data)
-            if any(b > a + tol for a, b in zip(scores, scores[1:])):
-                ctx.fail('nbest_order_float', f'real-valued scores: not in non-increasing order: {scores}', data)
-            if any(abs(a - b) > tol for a, b in zip(scores, allsc)):
+            if any(b > a for a, b in zip(scores, scores[1:])):
+                ctx.fail('nbest_order_float', f'real-valued scores: reported scores are not in non-increasing order: {[repr(x) for x in scores]}', data)
+            if any(differs(a, b) for a, b in zip(scores, allsc)):
                 ctx.fail('nbest_not_best_float', f'real-valued scores: returned {scores} are not the largest of {allsc[:6]}', data)
 
 
@@ -354,6 +380,9 @@ def run_family(ctx, focus, pfile):
                 ctx.count('grammar:mixed_heads')
             p = A.rand_problem(rng, nmax=(rng.choice([4, 5, 6]) if not quick else 4), kmax=5, nbest=nbest,
                                max_step=rng.choice([2000, 2000, 2000, 2000, rng.randint(1, 40)]), **kw)
+            if rng.random() < 0.08:
+                p.pruning = rng.choice([2 ** 31 - 1, 2 ** 31, 2 ** 32 - 1])      # "no pruning" spelled as a huge unsigned value
+                ctx.count('pruning:huge')
             real = None
         else:
             lang = rng.choice(['en', 'ja'])
